@@ -87,6 +87,5 @@ Arguments Err {A} e.
 
 Definition bind {A B} (r : res A) (f : A -> res B) : res B :=
   match r with Ok a => f a | Err e => Err e end.
-Notation "x <- r ;; k" := (bind r (fun x => k)) (at level 61, r at next level, right associativity).
 
 Definition Zsum (l : list Z) : Z := fold_right Z.add 0 l.
